@@ -89,6 +89,7 @@ PROPS["C03"] = dict(
         "Zrnt.Proofs.C03.slashing_reject_sound",
         "Zrnt.Proofs.C03.M_sound_phase0",
         "Zrnt.Proofs.C03.M_sound_altair",
+        "Zrnt.Proofs.C03.M_sound_bellatrix",
     ],
     modes=[dict(name="c03", stateful=True, max_shrinks=3, nontrivial=_nontrivial)],
     regen=[],
@@ -105,7 +106,7 @@ PROPS["C03"] = dict(
         "M_sound is proved only in part: M_sound_partial is the block-level statement (every block of the block type that S rejects is rejected by "
         "ProcessBlock / PostSlotTransition, no panic, no runaway loop) with the premise OpSteps for an invariant — the simulation of every operation kind "
         "is proved from its M = S theorem (all operation kinds have one since round 3), the preservation of ONE common invariant by every operation is "
-        "proved for EVERY phase0 operation kind (M_sound_phase0: no premise for phase0 blocks; M_sound_altair: the same for altair), open for bellatrix..deneb; single-operation forms: attestation_reject_sound, "
+        "proved for EVERY phase0 operation kind (M_sound_phase0: no premise for phase0 blocks; M_sound_altair / M_sound_bellatrix: the same for altair and bellatrix), open for capella, deneb; single-operation forms: attestation_reject_sound, "
         "slashing_reject_sound, header_sound, exit_age_sound, deposit_branch_sound, payload_sound. coverage.rejections_by_first_rule counts, per rule of "
         "S, the mutants S rejected by that rule FIRST",
         "block-level hypothesis check_types: the block is a value of the SSZ block type (per-element limits that zrnt enforces when decoding the block)",
